@@ -65,6 +65,17 @@ CHECKS: dict[str, dict] = {
         technique="TLA+ state machine enumerated by TLC, every state replayed into the code + TLC trace acceptance",
         ref="5-C02",
     ),
+    "C07": dict(
+        engine="spec/Codebase.tla, spec/CodebaseTrace.tla, spec/LengthCategories.tla",
+        text="Codebase.tla models add_file / the recursive add_folder / aggregate as coded, with the property's clauses as invariants stated from per-file "
+             "data only; TLC explores every insertion order of every set of up to N files over a path universe (2 directory names, depth <= 2, 2-3 file "
+             "names, 3 measurement lists); every reachable state is rebuilt with a real Codebase (and ScanTotals, ReportWriter) and compared with the model "
+             "state; final states, any disagreeing projection and random larger codebases (<= 12 files, depth <= 5) are judged by TLC against the reference "
+             "clauses (CodebaseTrace.tla).",
+        note="Distinct paths per codebase; loc = sum of function lengths; aggregate() called once. " + BASE_NOTE,
+        technique="TLA+ model checked by TLC + every state replayed into the code + TLC trace acceptance",
+        ref="5-C07",
+    ),
 }
 
 NOT_YET = "check not built yet in this round (see DESIGN.md section 10 for the order of work)"
